@@ -67,6 +67,8 @@ from vlib.harness import C13_sql as H, Q_family as F
 keys = [(0, a, wa, 0, 0) for a in range(F.NATOM) for wa in range(F.NWRAP)]
 keys += [(3, a, 0, b, j) for a in range(0, F.NATOM, 3) for b in range(0, F.NATOM, 5) for j in range(F.NDML)]
 keys += [(4, a, 0, b, j) for a in range(0, F.NATOM, 4) for b in range(F.NDML) for j in range(F.NNEST)]
+keys += [(1, a, wa, 0, 10) for a in range(F.NATOM) for wa in range(F.NWRAP)]          # shapes (nested multi pointers) around every wrapped atom
+keys += [(2, a, 0, b, j) for a in range(0, F.NATOM, 2) for b in range(0, F.NATOM, 3) for j in range(F.NBIN)]
 print(json.dumps(H.sql_text_for_seed(keys)))
 '''
 
